@@ -267,8 +267,9 @@ static Verdict c16_cast(const Case& c) {
     bool zero = true; for (int i = 0; i < n; i++) if (src[i] != 0) zero = false;
     // unit length to the precision of the coarser type: the converting constructor re-normalises, the converting assignment is a plain cast
     // (both are within two ulps of the cast); a float direction widened by assignment is a unit vector to float precision only
-    const int coarse = ntinfo(to).mant < ntinfo(nt).mant ? to : nt;
-    if (!zero) { double e = (double)(fabsq(sqrtq(norm) - 1) / (Q)eps_of(coarse)); if (!(e <= 4.0)) return Verdict::fail(fmt("%s<%s> -> <%s> by %s: result has length 1 +- %.2f ulp of %s (allowed 4)", R->name, ntinfo(nt).name, ntinfo(to).name, how, e, ntinfo(coarse).name)); }
+    // The converting CONSTRUCTOR is "additionally re-normalised" (statement): its result is a unit vector of the TARGET type, whatever the precision of the source.
+    const int coarse = via == 0 ? to : (ntinfo(to).mant < ntinfo(nt).mant ? to : nt);
+    if (!zero) { double e = (double)(fabsq(sqrtq(norm) - 1) / (Q)eps_of(coarse)); if (!(e <= 4.0)) return Verdict::fail(fmt("%s<%s> -> <%s> by %s: result has length 1 +- %.2f ulp of %s (allowed 4)%s", R->name, ntinfo(nt).name, ntinfo(to).name, how, e, ntinfo(coarse).name, via == 0 ? ": the converting constructor re-normalises in the target type" : "")); }
     V.nontrivial = !zero;
     return V;
   }
